@@ -15,5 +15,7 @@ for c in "$@"; do
   res="$res\"$c\": {\"violation_lines\": $v, \"first\": \"$first\"},"
 done
 cd /repo && git checkout -- . 
+# replay files written while the seeded change was applied are not findings of the real tree
+cd /verif && git clean -fdq replays
 echo "${res%,}}" > "$d/checks_result.json"
 cd /verif && ./build.sh harness
